@@ -1,6 +1,6 @@
 # C01 — every signature relic produces verifies, for every format, key and digest (end-to-end half + Coq laws)
 import concurrent.futures, json, os, shutil
-from vlib import e2e, formats
+from vlib import e2e, formats, c03_derive as D
 from vlib.common import VERIF
 
 HASHNAME = {"sha1": ("SHA-1", "SHA1"), "sha224": ("SHA-224", "SHA224"), "sha256": ("SHA-256", "SHA256"), "sha384": ("SHA-384", "SHA384"), "sha512": ("SHA-512", "SHA512")}
@@ -53,14 +53,25 @@ def run(ctx, replay=None):
     outdir = os.path.join(kit.dir, "c01")
     os.makedirs(outdir, exist_ok=True)
     jobs = jobs_for(kit, ctx.tier)
+    # harness-written compound files (own CFB writer, shared with C03/C08): plain, 4096-byte sectors, free sectors, and inputs
+    # that already carry a foreign signature stream sized at the mini-stream cutoff, so that signing REPLACES a stream stored
+    # in the other allocation table — every signature relic produces on them must verify, too
+    for name, vclass, blob in D.cfb_variants(ctx.tier):
+        if vclass not in ("generated", "v4", "foreign-signature", "free-sectors"):
+            continue
+        gp = os.path.join(outdir, name + ".msi")
+        with open(gp, "wb") as f:
+            f.write(blob)
+        jobs.append((gp, "msi", "rsa2048", "sha256", (), False))
+        jobs.append((gp, "msi", "p256", "sha384", ("--no-extended-sig",), False))
     if replay:
         rp = json.load(open(replay))
         jobs = [tuple(j[:4]) + (tuple(j[4]), j[5]) for j in rp.get("jobs", [])]
 
     def one(i_job):
         i, (fx, st, key, dg, flags, remote) = i_job
-        src = kit.fixture(fx)
-        work = os.path.join(outdir, "%04d_%s" % (i, fx.replace("/", "_")))
+        src = fx if os.path.isabs(fx) else kit.fixture(fx)
+        work = os.path.join(outdir, "%04d_%s" % (i, os.path.basename(fx) if os.path.isabs(fx) else fx.replace("/", "_")))
         shutil.copyfile(src, work)           # sign in place on a private copy
         before = e2e.sha256_file(work)
         real_key = "rsa2048" if key == "alias-rsa" else key
@@ -122,7 +133,7 @@ def run(ctx, replay=None):
         n_ok += 1
         sigs = v.get("sigs") or []
         real_key = "rsa2048" if r["key"] == "alias-rsa" else r["key"]
-        if e2e.FIXTURES[r["fixture"]][1] == "x509":
+        if e2e.FIXTURES.get(r["fixture"], (None, "x509"))[1] == "x509":
             if not any(s.get("leaf_sha1") == kit_leaf[real_key] for s in sigs):
                 ctx.violation("C01:spec:%s:wrong-certificate" % r["sigtype"], "accepted signature does not name the configured certificate of %s" % real_key, {"jobs": [list(ident.values())], "cmd": cmdline, "verify": v})
         elif not any(s.get("pgp_keyid") for s in sigs):
